@@ -376,6 +376,8 @@ def _histories(res, tier, seed, pname, f, args, kw, jargs, sf, key, r0, call_eag
     # ---- interference histories
     ops = _interference(f, args, kw)
     depth = 2 if tier == "quick" else 3
+    if tier == "quick" and pname not in ("flat", "cond", "gf_call", "adev", "custom_jvp_site", "kwargs"):
+        depth = 1  # quick: length-2 histories for six shapes, length-1 for the others; all at 3 in thorough
     first = int(part)
     for L_ in range(1, depth + 1):
         for hist in itertools.product(range(len(ops)), repeat=L_):
